@@ -1,1 +1,134 @@
-fn main() {}
+//! The simulated `cargo` (DESIGN.md §1.2, §3.4). Placed first on PATH as `cargo` by the world driver.
+//!
+//! Environment:
+//!   FAKE_CARGO_JOURNAL   file to which one JSON line {cwd, argv} is appended per invocation
+//!   FAKE_CARGO_SCENARIO  JSON file describing how to behave; absent => succeed silently (stub for C12/C14/C09)
+//!
+//! Scenario: {"mode": "model"|"told", "outcomes": {"<test fn>": "pass"|"fail"|"panic"},
+//!            "faults": {"<test fn>": "build_fail"|"signal"|"garbage"|"empty_fail"|"huge"}}
+//! The test being run is identified by the basename of the working directory (`target/incan_tests/<fn>`).
+
+use std::io::Write;
+
+fn main() {
+    let args: Vec<String> = std::env::args().collect();
+    let cwd = std::env::current_dir().map(|p| p.to_string_lossy().to_string()).unwrap_or_default();
+    if let Ok(j) = std::env::var("FAKE_CARGO_JOURNAL") {
+        if let Ok(mut f) = std::fs::OpenOptions::new().create(true).append(true).open(&j) {
+            let _ = writeln!(f, "{}", serde_json::json!({"cwd": cwd, "argv": &args[1..]}));
+        }
+    }
+    let Ok(scn_path) = std::env::var("FAKE_CARGO_SCENARIO") else {
+        std::process::exit(0);
+    };
+    let scn: serde_json::Value = std::fs::read_to_string(&scn_path)
+        .ok()
+        .and_then(|s| serde_json::from_str(&s).ok())
+        .unwrap_or(serde_json::Value::Null);
+    let sub = args.get(1).map(|s| s.as_str()).unwrap_or("");
+    if sub != "test" {
+        std::process::exit(0);
+    }
+    let test_fn = std::path::Path::new(&cwd).file_name().map(|s| s.to_string_lossy().to_string()).unwrap_or_default();
+    let fault = scn["faults"][&test_fn].as_str().unwrap_or("");
+    match fault {
+        "build_fail" => {
+            eprintln!("   Compiling test_runner v0.1.0 ({cwd})\nerror[E0425]: cannot find value `x` in this scope\nerror: could not compile `test_runner` (bin \"test_runner\" test) due to 1 previous error");
+            std::process::exit(101);
+        }
+        "signal" => {
+            // die by signal: no exit code for the parent to read
+            unsafe {
+                libc::kill(libc::getpid(), libc::SIGKILL);
+            }
+            std::thread::sleep(std::time::Duration::from_secs(5));
+            std::process::exit(0);
+        }
+        "garbage" => {
+            let _ = std::io::stdout().write_all(&[0xff, 0xfe, 0x00, 0xc3, 0x28, b'\n', 0x80, 0x81]);
+            let _ = std::io::stderr().write_all(&[0xf0, 0x28, 0x8c, 0xbc, b'\n']);
+            std::process::exit(1);
+        }
+        "empty_fail" => std::process::exit(1),
+        "huge" => {
+            let line = "x".repeat(1000);
+            let out = std::io::stdout();
+            let mut o = out.lock();
+            for _ in 0..2000 {
+                let _ = writeln!(o, "{line}");
+            }
+            std::process::exit(101);
+        }
+        _ => {}
+    }
+    let mode = scn["mode"].as_str().unwrap_or("told");
+    let designed = |name: &str| scn["outcomes"][name].as_str().unwrap_or("pass").to_string();
+    match mode {
+        "told" => finish(&[(test_fn.clone(), designed(&test_fn))]),
+        _ => {
+            // "model": a small model of `cargo test` — collect the functions of ./src/main.rs that carry #[test] or
+            // #[tokio::test] and "run" them with their designed outcomes; zero tests => exit 0, as the real tool does.
+            let src = std::fs::read_to_string("src/main.rs").unwrap_or_default();
+            let mut tests: Vec<(String, String)> = Vec::new();
+            let lines: Vec<&str> = src.lines().collect();
+            let mut i = 0;
+            while i < lines.len() {
+                let l = lines[i].trim();
+                if l == "#[test]" || l.starts_with("#[tokio::test") {
+                    let mut j = i + 1;
+                    while j < lines.len() && lines[j].trim().starts_with("#[") {
+                        j += 1;
+                    }
+                    if j < lines.len() {
+                        let d = lines[j].trim();
+                        if let Some(pos) = d.find("fn ") {
+                            let name: String =
+                                d[pos + 3..].chars().take_while(|c| c.is_alphanumeric() || *c == '_').collect();
+                            if !name.is_empty() {
+                                tests.push((name.clone(), designed(&name)));
+                            }
+                        }
+                    }
+                    i = j;
+                }
+                i += 1;
+            }
+            finish(&tests)
+        }
+    }
+}
+
+fn finish(tests: &[(String, String)]) -> ! {
+    println!("\nrunning {} test{}", tests.len(), if tests.len() == 1 { "" } else { "s" });
+    let mut failed = Vec::new();
+    for (name, outcome) in tests {
+        match outcome.as_str() {
+            "pass" => println!("test {name} ... ok"),
+            "fail" => {
+                eprintln!("\nthread '{name}' panicked at src/main.rs:10:5:\nassertion `left == right` failed\n  left: 1\n right: 2");
+                println!("test {name} ... FAILED");
+                failed.push(name.clone());
+            }
+            _ => {
+                println!("\nthread '{name}' panicked at src/main.rs:12:9:\n  boom from {name}\n");
+                println!("test {name} ... FAILED");
+                failed.push(name.clone());
+            }
+        }
+    }
+    if failed.is_empty() {
+        println!("\ntest result: ok. {} passed; 0 failed; 0 ignored; 0 measured; 0 filtered out; finished in 0.00s\n", tests.len());
+        std::process::exit(0);
+    }
+    println!("\nfailures:\n");
+    for f in &failed {
+        println!("    {f}");
+    }
+    println!(
+        "\ntest result: FAILED. {} passed; {} failed; 0 ignored; 0 measured; 0 filtered out; finished in 0.00s\n",
+        tests.len() - failed.len(),
+        failed.len()
+    );
+    eprintln!("error: test failed, to rerun pass `--bin test_runner`");
+    std::process::exit(101);
+}
